@@ -173,12 +173,29 @@ func (h *NFSProcedureHandler) handleFsinfo(body io.Reader, reply *RPCReply, auth
 		return nfsErrorWithPostOp(reply, NFSERR_IO), nil
 	}
 
-	binary.Write(&buf, binary.BigEndian, uint32(1048576))       // rtmax
-	binary.Write(&buf, binary.BigEndian, uint32(65536))         // rtpref
-	binary.Write(&buf, binary.BigEndian, uint32(4096))          // rtmult
-	binary.Write(&buf, binary.BigEndian, uint32(1048576))       // wtmax
-	binary.Write(&buf, binary.BigEndian, uint32(65536))         // wtpref
-	binary.Write(&buf, binary.BigEndian, uint32(4096))          // wtmult
+	// Advertise what READ and WRITE actually serve: the configured transfer size,
+	// kept below the record limit so that a WRITE of wtmax bytes plus its RPC
+	// header still fits in one record.
+	maxXfer := uint32(65536)
+	if ts := h.server.handler.tuning.Load().TransferSize; ts > 0 {
+		maxXfer = uint32(ts)
+	}
+	if limit := uint32(DefaultMaxRecordSize - 4096); maxXfer > limit {
+		maxXfer = limit
+	}
+	prefXfer, multXfer := uint32(65536), uint32(4096)
+	if prefXfer > maxXfer {
+		prefXfer = maxXfer
+	}
+	if multXfer > maxXfer {
+		multXfer = maxXfer
+	}
+	binary.Write(&buf, binary.BigEndian, maxXfer)               // rtmax
+	binary.Write(&buf, binary.BigEndian, prefXfer)              // rtpref
+	binary.Write(&buf, binary.BigEndian, multXfer)              // rtmult
+	binary.Write(&buf, binary.BigEndian, maxXfer)               // wtmax
+	binary.Write(&buf, binary.BigEndian, prefXfer)              // wtpref
+	binary.Write(&buf, binary.BigEndian, multXfer)              // wtmult
 	binary.Write(&buf, binary.BigEndian, uint32(8192))          // dtpref (C1: uint32 not uint64)
 	binary.Write(&buf, binary.BigEndian, uint64(1099511627776)) // maxfilesize
 	binary.Write(&buf, binary.BigEndian, uint32(0))             // time_delta.seconds
